@@ -65,6 +65,9 @@ fn dispatch(op: &str, input: &mut Value) -> OpResult {
     "disc" => k_disc::eval(op, input),
     #[cfg(feature = "k_gen")]
     "resp" => k_resp::eval(op, input),
+    // C20: how the event stream is obtained = the parse_response chain of a response set with text/event-stream
+    #[cfg(feature = "k_gen")]
+    "sse" if op == "sse.obtain" => k_resp::eval("resp.chain", input),
     #[cfg(feature = "k_gen")]
     "client" | "server" => k_resp::eval_op(op, input),
     #[cfg(feature = "k_gen")]
